@@ -22,6 +22,7 @@ GROUPS = [
        units=[U, 'src/internal/qinternal.c'], strength='bounded', bound='input strings of length URLN (quick 1..4, thorough 1..8), every byte value',
        instances=[dict(URLN=i) for i in range(1, 5)] + [dict(URLN=i, tier='thorough') for i in range(5, 9)]),
     eg('b64_decode_safe', 'qencode/b64.c', 'h_b64_decode_safe', ['qbase64_decode'], ['C17'], ['qbase64_decode'], units=[U, 'src/internal/qinternal.c']),
+    eg('b64_encode_format', 'qencode/b64.c', 'h_b64_encode_format', ['qbase64_encode'], ['C16', 'C11', 'C12'], ['qbase64_encode'], units=[U, 'src/internal/qinternal.c']),
     eg('b64_roundtrip_bounded', 'qencode/b64.c', 'h_b64_roundtrip_bounded', ['qbase64_encode', 'qbase64_decode'], ['C16'], mode='unwind', unwind=20,
        units=[U, 'src/internal/qinternal.c'], strength='bounded', bound='input length B64N bytes (quick 1..6, thorough 1..12), every byte value',
        instances=[dict(B64N=i) for i in range(1, 7)] + [dict(B64N=i, tier='thorough') for i in range(7, 13)]),
